@@ -476,8 +476,9 @@ def apply(ins, st):
         esp = m.r32(4)
         cur = esp
         for n in range(7, -1, -1):
-            v = m.load(cur, osz)
-            if n != 4: m.setreg(n, osz, v)
+            if n != 4:                          # the slot of (e)sp is skipped, not loaded (SDM: "skip next 4 bytes of stack")
+                v = m.load(cur, osz)
+                m.setreg(n, osz, v)
             cur = cur + bv(osz // 8, 32)
         m.regs['esp'] = cur
     elif name == 'leave':
